@@ -119,8 +119,9 @@ def patch_overrides(repo, patch_text):
     return ov or None
 
 
-def seeded(prop):
-    """[(name, patch text)] of the committed seeded changes for this property (/verif/seeded/*/)"""
+def seeded(prop, kind='breaking'):
+    """[(name, patch text)] of the committed seeded changes for this property (/verif/seeded/*/): kind 'breaking'
+    (must be reported) or 'equivalent' (behaviour-preserving refactorings: must stay silent)"""
     import json
     import os
     root = os.path.join(os.path.dirname(os.path.dirname(os.path.abspath(__file__))), 'seeded')
@@ -136,7 +137,7 @@ def seeded(prop):
             meta = json.load(open(mp))
         except ValueError:
             continue
-        if meta.get('property') == prop:
+        if meta.get('property') == prop and meta.get('kind', 'breaking') == kind:
             out.append(('seeded/' + d, open(pp).read()))
     return out
 
@@ -156,7 +157,7 @@ def selftest(run, repo, mod):
     muts = getattr(mod, 'MUTANTS', [])
     eqs = getattr(mod, 'EQUIV', [])
     seeds = seeded(prop)
-    if not muts and not eqs and not seeds:
+    if not muts and not eqs and not seeds and not seeded(prop, 'equivalent'):
         return
     t0 = time.time()
     base = {f.ident() for f in run.findings}
@@ -199,6 +200,20 @@ def selftest(run, repo, mod):
             res['caught'] += 1
         else:
             res['missed'].append('%s (new findings: %s)' % (mt['name'], [f.ident()[1:3] for f in new][:3]))
+    # behaviour-preserving refactorings written by independent reviewers: no new finding, no analysis error
+    for name, patch in seeded(prop, 'equivalent'):
+        ov = patch_overrides(repo, patch)
+        if ov is None:
+            res['skipped'].append(name + ' (patch no longer applies)')
+            continue
+        res['equiv'] += 1
+        r, err = run_check(mod, prop, repo.root, ov)
+        if r is None:
+            res['noisy'].append('%s (analysis error: %s)' % (name, err[:160]))
+        elif [f for f in r.findings if f.ident() not in base]:
+            res['noisy'].append('%s (%s)' % (name, [f.ident()[1:] for f in r.findings if f.ident() not in base][:2]))
+        else:
+            res['silent'] += 1
     for eq in eqs:
         ov = apply_edits(repo, eq['edits'])
         if ov is None:
